@@ -31,6 +31,18 @@ CLAIMED = {
             "Kernel-checked: translation adds v and fixes infinity; rotation(a) is ccw and additive (over R via cos_add/sin_add); rotation(a,axis): R^T R = 1, det R = 1, R a = a, tr R = 1+2c for unit axes and c^2+s^2 = 1; reflection = classical mirror image (2-D, 3-D); from_points maps the frame (every n). Tied by a differential run: exact model matrices vs the implementation (axes in all octants, axis points of any homogeneous scale, oblique mirrors, non-affine frames, from_points_and_conics).",
             NOTE_COMMON + "cos/sin/atan2/norm trusted (few ulp); from_points_and_conics is decided by correspondence only.",
             "DESIGN.md 7/C08"),
+    "C09": ("Lean 4: the bracket expressions of _point_dist and crossratio are regenerated from operators.py (ast translator) and evaluated at I, J over Gaussian numbers (simp with re/im lemmas + ring): dist^2 = Cartesian distance^2, Laguerre numerator/denominator; foot-point lemmas; correspondence with exact S-layer values (dist^2, cos/sin 2θ)",
+            "Kernel-checked about the regenerated formulas: [P,Q,I][P,Q,J] and [P,I,J][Q,I,J] in closed form for all representatives, (4√rad/den)² = |p-q|², symmetry, foot of the perpendicular at distance (h·p)²/|n|² (2-D, 3-D), cr(b,c,I,J;a) = u v̄/(ū v). Tied by differential runs against the exact S-layer (all kind pairs, both argument orders, incident pairs, points at infinity, collections, segments, polygons, polyhedra, 3-D angles under translation).",
+            NOTE_COMMON + "The 3-D reduction through an orthonormal basis (orth / basis_matrix), sqrt, log and the kind dispatch are decided by correspondence only.",
+            "DESIGN.md 7/C09"),
+    "C10": ("Lean 4: the I/J construction of LineTensor.mirror (six cross products over Gaussian numbers) = 2i z (a²+b²) x classical mirror image; S-layer lemmas (involution, midpoint = foot, normal direction; 2-D and 3-D); is_perpendicular bracket identity on regenerated formulas; correspondence of project/mirror/perpendicular/parallel/predicates/representatives with the exact S-layer",
+            "Kernel-checked: mechanism model of the 2-D mirror equals a non-zero complex multiple of the Cartesian mirror image for every line and point representative; the Cartesian mirror is an involution whose midpoint with p is the foot; num+den of the perpendicularity cross ratio = 2 u·v. Tied by differential runs over every line/plane orientation (incl. x=0, through the origin, far from the origin), points on and off, 3-D lines, predicates on constructed positive/negative instances, base_point/direction/basis_matrix/general_point, collections with mixed on/off.",
+            NOTE_COMMON + "3-D constructions through _matrix_transform / absolute conic, QR/SVD orthonormality and the predicates' tolerance are decided by correspondence only (orthonormality verified numerically per sample). One recorded finding (KF-C10-1).",
+            "DESIGN.md 7/C10"),
+    "C11": ("Lean 4: regenerated cross-ratio determinants and quotient evaluated on p_i = a + x_i b: closed form (on a line via Gram coordinates, and from a fifth point), the five symmetries, harmonic parameter, complete-quadrilateral construction = -det[o,a,b]^3 (λa - μb) (ring / field_simp); correspondence with exact parameter values",
+            "Kernel-checked about the code's own determinants: value = (x1-x3)(x2-x4)/((x1-x4)(x2-x3)) cross-multiplied, the Gram determinant / det[o,a,b] cancels; symmetries of the closed form; cr = -1 for the harmonic parameter; the quadrilateral construction returns the harmonic conjugate for any auxiliary point. Tied by differential runs (points 2-D/3-D, from a point, concurrent lines with vertices on axes / at infinity, coaxial planes, invariance under random projective maps, NotCollinear / NotConcurrent, harmonic_set incl. special lines).",
+            NOTE_COMMON + "Coaxial planes and 3-D harmonic_set go through basis matrices (correspondence only).",
+            "DESIGN.md 7/C11"),
     "C19": ("Lean 4: model of _get_index_mapping/normalize_index vs an independent model of NumPy's indexing semantics: complete kernel-evaluated table (<=3 components, rank<=4) on the agreeing fragment + kernel-checked counterexamples outside it; type read-off and transpose lemmas (induction-free list reasoning); affine point arithmetic; correspondence: arithmetic with all operand pairings / ufunc routes, exhaustive index expressions (thorough)",
             "Kernel-checked: on the fragment (no >=2-D mask, no integer or None together with an array index) the code's axis mapping equals NumPy's for every index expression of <=3 components and rank <=4 (finite table, labelled as such), is provably different on three witnesses outside it (known findings KF-C19-1/2/3, replayed on the implementation every run); index types are read off the mapping; transpose types; point +/- is affine with points at infinity as directions. Tied by differential runs: value = numpy's own array[index], types = reference model (itself cross-checked against numpy's result ndim), arithmetic for Tensor/Point/Quadric x tensor/array/list/scalar x operator/ufunc.",
             "Trusted: Lean kernel + standard axioms; numpy's array[index] as value reference; the harness. The unbounded-length statement for basic indexing is not proved (finite table only); elementwise arithmetic on arrays is decided by correspondence.",
